@@ -264,8 +264,8 @@ M('xa-added-after-length-check', 'fault', ['C13'], ['SA-LENBOUND'],
   [(DR, "            self.xa_record.new()\n            self.dr_len += XARecord.length()\n\n        self.dr_len += (self.dr_len % 2)\n\n        if self.dr_len > 255:\n            raise pycdlibexception.PyCdlibInvalidInput('Name is too long to fit in a directory record')\n",
     "            self.xa_record.new()\n\n        self.dr_len += (self.dr_len % 2)\n\n        if self.dr_len > 255:\n            raise pycdlibexception.PyCdlibInvalidInput('Name is too long to fit in a directory record')\n        if xa:\n            self.dr_len += XARecord.length()\n")], 'dr_len')
 M('walk-uses-unbound-ino', 'fault', ['C15'], ['SA-EXC.unbound'],
-  [(PY, "                        if new_record.inode is not None:\n                            new_record.inode.data_length = iso_file_length - extent_to_use * self.logical_block_size\n",
-    "                        if new_record.inode is not None:\n                            ino.data_length = iso_file_length - extent_to_use * self.logical_block_size\n")], '_walk_directories|ino')
+  [(PY, "                            new_record.inode.data_length = truncated_len\n",
+    "                            ino.data_length = truncated_len\n")], '_walk_directories|ino')
 M('twin-unbound-correlated', 'twin', ['C15'], [],
   [(DR, "        else:\n            record_offset = 33\n", "        else:\n            record_offset = 32\n            record_offset += 1\n")])
 M('tool-unbound-after-skip', 'fault', ['C20'], ['SA-EXC.unbound_tool'],
@@ -714,3 +714,61 @@ def run(prop, rids, tier, seed, base_obs=None):
         inconclusive, failed = failed, []
     return {'mutants_run': len(mine), 'faults_detected': nf, 'twins_silent': nt, 'skipped_not_applicable': skipped,
             'failed': failed, 'inconclusive_on_modified_tree': inconclusive, 'tree_is_the_validated_one': same_tree, 'detail': detail}
+
+
+# ---------------------------------------------------------------- seeding round 5
+M('inplace-skips-further-joliet-names', 'fault', ['C17', 'C07'], ['SA-LINKS.every'],
+  [(PY, "                if self.joliet_vd is not None and id(record.vd) == id(self.joliet_vd) and first_joliet:\n                    first_joliet = False\n",
+    "                if self.joliet_vd is not None and id(record.vd) == id(self.joliet_vd):\n                    if not first_joliet:\n                        continue\n                    first_joliet = False\n")], 'modify_file_in_place')
+M('inplace-writes-each-udf-entry-once', 'fault', ['C10', 'C17'], ['SA-LINKS.every'],
+  [(PY, "                abs_offset = record.extent_location() * self.logical_block_size\n            elif isinstance(record, eltorito.EltoritoEntry):\n",
+    "                abs_offset = record.extent_location() * self.logical_block_size\n                if abs_offset == child.extent_location() * self.logical_block_size:\n                    continue\n            elif isinstance(record, eltorito.EltoritoEntry):\n")], 'modify_file_in_place')
+M('twin-inplace-skips-eltorito-entries-first', 'twin', ['C17', 'C10', 'C07'], [],
+  [(PY, "        for record, is_pvd_unused in child.inode.linked_records:\n            if isinstance(record, dr.DirectoryRecord):\n                if self.joliet_vd is not None",
+    "        for record, is_pvd_unused in child.inode.linked_records:\n            if isinstance(record, eltorito.EltoritoEntry):\n                continue\n            if isinstance(record, dr.DirectoryRecord):\n                if self.joliet_vd is not None")])
+M('long-ad-offset-only-set-by-builder', 'fault', ['C15'], ['SA-EXC.slot_init'],
+  [(UDF, "    FMT = '<LLH6s'\n\n    def __init__(self):\n        # type: () -> None\n        self.offset = 0\n        self._initialized = False\n",
+    "    FMT = '<LLH6s'\n\n    def __init__(self):\n        # type: () -> None\n        self._initialized = False\n"),
+   (UDF, "        self.part_ref_num = 0  # FIXME: let the user set this\n        self.impl_use = b'\\x00' * 6\n\n        self._initialized = True\n",
+    "        self.part_ref_num = 0  # FIXME: let the user set this\n        self.impl_use = b'\\x00' * 6\n        self.offset = 0\n\n        self._initialized = True\n")], 'UDFLongAD')
+M('root-record-shared-with-last-pvd-copy-only', 'fault', ['C03', 'C02'], ['SA-MIRROR.loopvar'],
+  [(PY, "                raise pycdlibexception.PyCdlibInvalidISO('Multiple occurrences of PVD did not agree!')\n\n            pvd.root_dir_record = self.pvd.root_dir_record\n",
+    "                raise pycdlibexception.PyCdlibInvalidISO('Multiple occurrences of PVD did not agree!')\n\n        pvd.root_dir_record = self.pvd.root_dir_record\n")], '_parse_volume_descriptors')
+M('section-remarks-first-header', 'fault', ['C11', 'C01'], ['SA-COORD.last_mark'],
+  [(ELT, "            self.sections[-1].set_record_not_last()\n", "            self.sections[0].set_record_not_last()\n")], 'add_section')
+M('twin-section-remarks-last-header-through-a-local', 'twin', ['C11', 'C01'], [],
+  [(ELT, "            self.sections[-1].set_record_not_last()\n", "            previous = self.sections[-1]\n            previous.set_record_not_last()\n")])
+M('relocated-entry-remembered-as-relocation-directory', 'fault', ['C02', 'C08'], ['SA-COORD.rr_moved_holder'],
+  [(PY, "                        self._rr_moved_record = dir_record\n", "                        self._rr_moved_record = new_record\n")], '_walk_directories')
+M('twin-relocation-directory-through-a-local', 'twin', ['C02', 'C08'], [],
+  [(PY, "                        self._rr_moved_record = dir_record\n", "                        holder = dir_record\n                        self._rr_moved_record = holder\n")])
+M('continuation-areas-of-the-root-not-registered', 'fault', ['C04', 'C08', 'C02'], ['SA-COORD.ce_tracked'],
+  [(PY, "                    if not (dir_record.is_root and new_record.is_dot()):\n", "                    if not dir_record.is_root and not new_record.is_dot():\n")], '_walk_directories')
+M('twin-root-dot-test-through-a-local', 'twin', ['C04', 'C08', 'C02'], [],
+  [(PY, "                    if not (dir_record.is_root and new_record.is_dot()):\n", "                    holds_er = dir_record.is_root and new_record.is_dot()\n                    if not holds_er:\n")])
+M('twin-root-dot-test-de-morgan', 'twin', ['C04', 'C08', 'C02'], [],
+  [(PY, "                    if not (dir_record.is_root and new_record.is_dot()):\n", "                    if not dir_record.is_root or not new_record.is_dot():\n")])
+M('relocation-name-asked-before-default', 'fault', ['C14'], ['SA-DEFAULT.attr'],
+  [(PY, "        self.pvd.root_directory_record().check_new_child(rr_moved_name,\n                                                         rr_moved_rr_name)\n",
+    "        self.pvd.root_directory_record().check_new_child(rr_moved_name,\n                                                         self._rr_moved_rr_name)\n")], '_find_or_create_rr_moved')
+M('level4-extension-split-before-semicolon-replaced', 'fault', ['C18'], ['SA-STR'],
+  [(UT, "    valid_ext = ''\n    if iso_level == 4:\n", "    valid_ext = ''\n    splitter = orig.split('.')\n    if iso_level == 4:\n"),
+   (UT, "            orig = '_'\n    splitter = orig.split('.')\n    if iso_level == 4:\n", "            orig = '_'\n    if iso_level == 4:\n")], 'level 4')
+M('cylinder-count-before-gpt-padding', 'fault', ['C12'], ['SA-FRESH.derived_pair'],
+  [(ISOH, "        if self.efi:\n            # The backup GPT (the partition array and then the header) lives\n", "        cc = min((iso_size + padding) // cylsize, 1024)\n        if self.efi:\n            # The backup GPT (the partition array and then the header) lives\n"),
+   (ISOH, "                padding += cylsize\n        cc = min((iso_size + padding) // cylsize, 1024)\n", "                padding += cylsize\n")], '_calc_cc')
+M('read-past-end-pulls-position-back', 'fault', ['C16'], ['SA-SEEK.advance'],
+  [(IOF, "        if self._offset >= self._length:\n            return b''\n\n        if size is None or size < 0:\n", "        if size is None or size < 0:\n")], 'PyCdlibIO.read|')
+M('twin-read-eof-test-operands-exchanged', 'twin', ['C16'], [],
+  [(IOF, "        if self._offset >= self._length:\n            return b''\n\n        if size is None or size < 0:\n", "        if self._length <= self._offset:\n            return b''\n\n        if size is None or size < 0:\n")])
+M('timezone-sign-extension-off-by-one', 'fault', ['C19'], ['SA-DATE.signext'],
+  [(UDF, "                val = val - (1 << bits)         # compute negative value\n", "                val = val - ((1 << bits) - 1)   # compute negative value\n")], 'twos_comp')
+M('symlink-components-need-one-byte-more', 'fault', ['C20'], ['SA-PARSE.header_fits'],
+  [(EXT, "    while offset + 4 <= len(data):\n", "    while offset + 4 < len(data):\n")], 'udf_symlink_target')
+M('parser-never-finishes-deferred-layout', 'fault', ['C03', 'C02'], ['SA-PAIR.offset_cache'],
+  [(PY, "            dir_record.finish_tracking(self.logical_block_size)\n", "            pass\n")], '_add_child')
+M('rm-directory-does-not-ask-the-pvds-first', 'fault', ['C14'], ['SA-VBM'],
+  [(PY, "            for pvd in self.pvds:\n                pvd.check_remove_from_ptr_size(ptr_sizes)\n", "            pass\n")], '_remove_from_ptr_size')
+M('insertion-tests-only-first-rock-ridge-name', 'fault', ['C13', 'C14'], ['SA-SIB.query_twin'],
+  [(DR, "                for other_index in range(rr_index, len(self.rr_children)):\n                    other_rr = self.rr_children[other_index].rock_ridge\n                    if other_rr is None or other_rr.name() != child.rock_ridge.name():\n                        break\n                    if not other_rr.relocated_record():\n                        raise pycdlibexception.PyCdlibInvalidInput('Failed adding duplicate Rock Ridge name to parent')\n",
+    "                if rr_index != len(self.rr_children):\n                    other_rr = self.rr_children[rr_index].rock_ridge\n                    if other_rr is not None and other_rr.name() == child.rock_ridge.name() and not other_rr.relocated_record():\n                        raise pycdlibexception.PyCdlibInvalidInput('Failed adding duplicate Rock Ridge name to parent')\n")], 'found by scanning')
